@@ -1,0 +1,8 @@
+//go:build verif
+
+// Contracts for the log-backed accounter, read by /verif (tqv). Comment-only.
+package local
+
+//@ func (a Accounter) Handle(response tq.Response, request tq.Request)
+//@   implements tq.Handler.Handle
+//@   requires a.loggerProvider != nil && a.sink != nil
